@@ -7,6 +7,7 @@ import h2.connection
 import h2.errors
 import h2.events
 import h2.exceptions
+import hyperframe.exceptions
 import priority
 
 from .events import (
@@ -155,7 +156,21 @@ class H2Protocol:
         self, headers: Optional[List[Tuple[bytes, bytes]]] = None, settings: Optional[str] = None
     ) -> None:
         if settings is not None:
-            self.connection.initiate_upgrade_connection(settings)
+            try:
+                self.connection.initiate_upgrade_connection(settings)
+            except (
+                ValueError,  # Not ASCII or not base64 (binascii.Error)
+                hyperframe.exceptions.InvalidFrameError,  # Not a SETTINGS payload
+                h2.exceptions.InvalidSettingsValueError,
+            ):
+                # The HTTP2-Settings value of the h2c upgrade request
+                # cannot be used, which is a connection error as the
+                # 101 response has been sent (there is no way back to
+                # HTTP/1.1). The upgrade request is not served.
+                self.connection.close_connection(h2.errors.ErrorCodes.PROTOCOL_ERROR)
+                await self._flush()
+                await self.send(Closed())
+                return
         else:
             self.connection.initiate_connection()
         await self._flush()
